@@ -128,6 +128,11 @@ def stage(chk, ops, extra=None):
             for g in grids:
                 if g[0] <= min(npts[0], npts[3]) and g[1] <= min(npts[2], npts[3]):
                     cases.append((op, npts, g, seed, dict(extra or {})))
+        # one radius / one z plane per process (extent equal to the process count: local extents of 1)
+        seed = rng.randrange(1000)
+        cases.append((op, [7, 8, 7, 8], (1, 1), seed, dict(extra or {})))
+        cases.append((op, [7, 8, 7, 8], (7, 1), seed, dict(extra or {})))
+        cases.append((op, [7, 8, 7, 8], (1, 7), seed, dict(extra or {})))
     res = implrun.run_cases('props.adv_grid', 'grid_entry_case', cases, tmo=1200.0, chunk=1)
     ref = {}
     for c, r in zip(cases, res):
